@@ -312,14 +312,27 @@ def consults_registry(mod: Module, e: ast.AST, fn: ast.AST, registry_methods: se
         scope = mod.scope.get(id(fn), "")
         parts = scope.split(".") if scope else []
         if isinstance(n.func, ast.Name):
-            # innermost definition of that name visible from fn: nested in fn, in an enclosing def, or at module level
-            for k in range(len(parts), -1, -1):
-                if k and isinstance(mod.defs.get(".".join(parts[:k])), ast.ClassDef):
-                    continue  # class attributes are not visible by bare name
-                d = mod.defs.get(".".join(parts[:k] + [n.func.id]))
-                if isinstance(d, (ast.FunctionDef, ast.AsyncFunctionDef)):
-                    target = d
-                    break
+            # every function the name can evaluate to here: the innermost definition of that name visible from fn (nested in fn, in an enclosing
+            # def, at module level), or - a local - what it was bound to: a def, functools.partial(def, ..), a lambda (callables_of)
+            cands = callables_of(mod, n.func, fn) if isinstance(fn, (ast.FunctionDef, ast.AsyncFunctionDef)) else None
+            if cands:
+                whys = []
+                for d in cands:
+                    if id(d) in seen:
+                        whys.append(None)
+                        continue
+                    seen.add(id(d))
+                    r = None
+                    if isinstance(d, ast.Lambda):
+                        r = consults_registry(mod, d.body, fn, registry_methods, _depth + 1, seen)
+                    else:
+                        for st in d.body:  # type: ignore[attr-defined]
+                            r = consults_registry(mod, st, d, registry_methods, _depth + 1, seen)
+                            if r:
+                                break
+                    whys.append(r)
+                if whys and all(whys):
+                    return "%s -> %s" % (norm(n.func), whys[0])
         elif isinstance(n.func, ast.Attribute) and isinstance(n.func.value, ast.Name):
             # receiver.method(...) inside a method of a class of this module
             for k in range(len(parts) - 1, 0, -1):
@@ -806,7 +819,39 @@ def remove_scoping(mod: Module, fn: ast.FunctionDef, cls: ast.ClassDef) -> list[
             defs.pop(x, None)
     for x in ps:
         defs.pop(x, None)
-    rc = {k for k, vs in defs.items() if all(isinstance(v, ast.Call) and any(isinstance(a, ast.Name) and a.id == ctxp for a in list(v.args) + [kw.value for kw in v.keywords]) for v in vs)}
+    # the key of the requested context: a local every definition of which is computed by a call from the context parameter - the parameter itself, an
+    # attribute chain hanging from it (context.identifier), or a local that is computed so in turn, among the arguments: `key = self.m(context)` as
+    # well as the body of m written out (`k = "{}:{}".format(context.identifier.__class__.__name__, context.identifier); key = k`) - or is the
+    # constant None on a path where the context parameter is known to be None (the key of "no context")
+    def _from_ctx(e: ast.expr, depth: int = 4, names: frozenset = frozenset()) -> bool:
+        if isinstance(e, ast.Call):
+            for a in list(e.args) + [kw.value for kw in e.keywords]:
+                while isinstance(a, ast.Attribute):
+                    a = a.value
+                if isinstance(a, ast.Name) and (a.id == ctxp or _from_ctx(a, depth, names)):
+                    return True
+            return False
+        if isinstance(e, ast.Name) and e.id in defs and depth and e.id not in names:
+            return all(_from_ctx(d, depth - 1, names | {e.id}) for d in defs[e.id])
+        return False
+
+    none_defs_ok: dict[int, bool] = {}
+
+    def _ctx_none_atom(e: ast.expr) -> Optional[tuple]:
+        if isinstance(e, ast.Compare) and len(e.ops) == 1 and isinstance(e.ops[0], (ast.Is, ast.IsNot, ast.Eq, ast.NotEq)):
+            for a, b in ((e.left, e.comparators[0]), (e.comparators[0], e.left)):
+                if isinstance(a, ast.Name) and a.id == ctxp and is_none_const(b):
+                    return ("ctx-none",), isinstance(e.ops[0], (ast.Is, ast.Eq)), {ctxp}
+        return None
+
+    def _visit_none_def(s: ast.stmt, vals: set) -> None:
+        v = s.value if isinstance(s, (ast.Assign, ast.AnnAssign)) else None
+        if v is not None and is_none_const(v):
+            none_defs_ok[id(v)] = none_defs_ok.get(id(v), True) and bool(vals) and all(holds(x, ("ctx-none",)) for x in vals)
+
+    if any(is_none_const(v) for vs in defs.values() for v in vs):
+        GuardWalk(_ctx_none_atom, _visit_none_def).block(fn.body, {frozenset()})
+    rc = {k for k, vs in defs.items() if any(_from_ctx(v) for v in vs) and all(_from_ctx(v) or (is_none_const(v) and none_defs_ok.get(id(v), False)) for v in vs)}
     # the attribute(s) a per-triple look-up falls back to: self.T.get(t, self.D)
     fallbacks = set()
     for n in ast.walk(cls):
@@ -863,6 +908,7 @@ def remove_scoping(mod: Module, fn: ast.FunctionDef, cls: ast.ClassDef) -> list[
                     if isinstance(t, (ast.Tuple, ast.List)):
                         comps |= bound_names(t)
         D = plainly_derived(lp, set(T))
+        TT = triple_copies(lp, T, comps)  # the triple, or a tuple display of its components: a key <that>[i] is a component of the triple
         inner_vars = {n.target.id for n in ast.walk(lp) if n is not lp and isinstance(n, (ast.For, ast.AsyncFor)) and isinstance(n.target, ast.Name)}
 
         def ctxs_of_triple(e: ast.expr) -> bool:
@@ -942,7 +988,7 @@ def remove_scoping(mod: Module, fn: ast.FunctionDef, cls: ast.ClassDef) -> list[
             # (2) deletions
             if isinstance(s, ast.Delete):
                 keys = del_keys(s)
-                by_comp = any((isinstance(k, ast.Name) and k.id in comps) or (isinstance(k, ast.Subscript) and isinstance(k.value, ast.Name) and k.value.id in T) for k in keys)
+                by_comp = any((isinstance(k, ast.Name) and k.id in comps) or (isinstance(k, ast.Subscript) and isinstance(k.value, ast.Name) and k.value.id in TT) for k in keys)
                 by_triple = any(isinstance(k, ast.Name) and k.id in T for k in keys)
                 if by_comp:
                     n_index_dels += 1
@@ -1729,3 +1775,397 @@ def quad_resolver(mod: Module, cls: str, entry: str) -> tuple[ast.FunctionDef, a
                 if ctx and isinstance(ctx[0], ast.Name) and ctx[0].id in names:
                     return meths[c.func.attr], c, names.index(ctx[0].id)
     raise AnalysisError("%s.%s: the call that resolves the triple-or-quad argument into (s, p, o, graph) for the store was not found" % (cls, entry))
+
+
+# =========================================================================== rules c, k, o, e restated (second round of refactorings, DESIGN §14.2)
+#
+# * context_key_function / returned_leaves / key_built_from_class_and_value - rule c: the function that computes the store's context key is
+#   found by its role (the method of the class that the public add / remove / triples call with their context parameter alone); what it
+#   hands back is followed through locals and through the functions it delegates to, and every key it can return is a string built from an
+#   expression E and the class of E - however the string is spelt (h_c17.str_parts) and wherever the building lives.
+# * registry_attrs / registry_drops / reached_only_where - rule k: the registry of graphs is the state that the public add_graph puts its
+#   argument into; a statement of remove() that takes something out of it is reached only where <receiver>.graph_aware is false
+#   (GuardWalk: and/or chains, De Morgan forms, nested ifs, guard clauses, flag variables are the same thing).
+# * callables_of (consults_registry) - rule o: the callee of `f(...)` is every function the name f can evaluate to - a def, a local bound to
+#   a def, to functools.partial(def, ...), to a lambda, to a conditional expression of those.
+# * under_emptiness / arm_reached_only_when_false - rule o: the arm taken because a graph is empty is the body of `if not G:` as well as what
+#   follows `if G: continue` / the else arm of `if G:`.
+# * triple_copies - rule e: a tuple display of the components of the triple is the triple.
+
+
+def _flat_assignments(fn: ast.AST, nested: bool = False) -> dict[str, list[ast.expr]]:
+    """name -> the values plainly assigned to it in fn (x = v, x: T = v, x := v); a name that is also bound in another way (loop target,
+    unpacking, with, except, augmented assignment, del) is left out: its value is not one of those expressions only"""
+    defs: dict[str, list[ast.expr]] = {}
+    other: set[str] = set()
+    for n in own_nodes(fn, include_nested=nested):
+        if isinstance(n, ast.Assign):
+            for t in n.targets:
+                if isinstance(t, ast.Name):
+                    defs.setdefault(t.id, []).append(n.value)
+                else:
+                    other |= bound_names(t)
+        elif isinstance(n, ast.AnnAssign):
+            if isinstance(n.target, ast.Name) and n.value is not None:
+                defs.setdefault(n.target.id, []).append(n.value)
+        elif isinstance(n, ast.NamedExpr):
+            defs.setdefault(n.target.id, []).append(n.value)
+        elif isinstance(n, (ast.For, ast.AsyncFor, ast.comprehension, ast.AugAssign)):
+            other |= bound_names(n.target)
+        elif isinstance(n, (ast.With, ast.AsyncWith)):
+            other |= bound_names([i.optional_vars for i in n.items if i.optional_vars is not None])
+        elif isinstance(n, ast.Delete):
+            other |= bound_names(list(n.targets))
+        elif isinstance(n, ast.ExceptHandler) and n.name:
+            other.add(n.name)
+    for x in other:
+        defs.pop(x, None)
+    return defs
+
+
+# --------------------------------------------------------------------------- c: the context key
+
+def context_key_function(mod: Module, cls: str, entries: tuple[str, ...] = ("add", "remove", "triples")) -> ast.FunctionDef:
+    """The method of `cls` that turns a context into the key the store files it under: the one method of the class that the public entry
+    points call on the receiver with their context parameter (the third positional parameter of the Store API) as the only argument -
+    directly, or inside a method of the class they hand the context on to."""
+    meths = mod.methods(cls)
+
+    def key_calls(f: ast.FunctionDef, ctxp: str, depth: int, seen: set) -> set[str]:
+        recv = receiver_name(f)
+        found: set[str] = set()
+        if recv is None or ctxp in bound_names(f.body) or id(f) in seen:
+            return found
+        seen = seen | {id(f)}
+        for c in own_nodes(f):
+            if not (isinstance(c, ast.Call) and isinstance(c.func, ast.Attribute) and isinstance(c.func.value, ast.Name) and c.func.value.id == recv
+                    and c.func.attr in meths and c.func.attr not in entries):
+                continue
+            args = list(c.args) + [k.value for k in c.keywords]
+            if len(args) == 1 and isinstance(args[0], ast.Name) and args[0].id == ctxp:
+                found.add(c.func.attr)
+            elif depth:
+                b = CtxFilterInterp.bind_args(c, meths[c.func.attr])
+                for p_, a in (b or {}).items():
+                    if isinstance(a, ast.Name) and a.id == ctxp:
+                        found |= key_calls(meths[c.func.attr], p_, depth - 1, seen)
+        return found
+
+    found: set[str] = set()
+    for en in entries:
+        if en not in meths:
+            raise AnalysisError("anchor vanished: %s:%s.%s" % (mod.rel, cls, en))
+        ps = positional_params(meths[en])
+        if len(ps) < 3:
+            raise AnalysisError("%s.%s: expected (receiver, triple, context, ...)" % (cls, en))
+        here = key_calls(meths[en], ps[2], 2, set())
+        if not here:
+            raise AnalysisError("%s.%s: no method of the class is called with the context alone (the computation of the context key was not found)" % (cls, en))
+        found |= here
+    if len(found) != 1:
+        raise AnalysisError("%s: the method that computes the key of a context (called by %s with the context alone) is not unique: %s" % (cls, "/".join(entries), sorted(found)))
+    return meths[next(iter(found))]
+
+
+def _callee_def(mod: Module, call: ast.Call, fn: ast.AST, cls_methods: Optional[dict] = None, recv: Optional[str] = None) -> Optional[ast.FunctionDef]:
+    """the function of this module a call plainly names: <receiver>.<method of the class>(...) or <module-level function>(...)"""
+    f = call.func
+    if isinstance(f, ast.Attribute) and isinstance(f.value, ast.Name) and recv is not None and f.value.id == recv and cls_methods and f.attr in cls_methods:
+        return cls_methods[f.attr]
+    if isinstance(f, ast.Name):
+        d = mod.defs.get(f.id)
+        if isinstance(d, (ast.FunctionDef, ast.AsyncFunctionDef)) and f.id not in bound_names(getattr(fn, "body", [])) and f.id not in positional_params(fn):
+            return d  # type: ignore[return-value]
+    return None
+
+
+def returned_leaves(mod: Module, fn: ast.FunctionDef, cls_methods: Optional[dict] = None, depth: int = 4, _seen: Optional[set] = None) -> list[tuple[ast.expr, ast.FunctionDef]]:
+    """(expression, function it stands in) for everything fn can hand back other than the constant None: a returned local is replaced by every
+    value assigned to it, a returned call of a method of the class / a module-level function by what that function returns."""
+    seen = _seen if _seen is not None else set()
+    seen.add(id(fn))
+    defs = _flat_assignments(fn)
+    recv = receiver_name(fn) if cls_methods and any(m is fn for m in cls_methods.values()) else None
+    out: list[tuple[ast.expr, ast.FunctionDef]] = []
+
+    def leaf(e: ast.expr, d: int, names: frozenset) -> None:
+        if is_none_const(e):
+            return
+        if isinstance(e, ast.Name) and e.id in defs and e.id not in names and d:
+            for v in defs[e.id]:
+                leaf(v, d - 1, names | {e.id})
+            return
+        if isinstance(e, ast.IfExp):
+            leaf(e.body, d, names)
+            leaf(e.orelse, d, names)
+            return
+        if isinstance(e, ast.NamedExpr):
+            leaf(e.value, d, names)
+            return
+        if isinstance(e, ast.Call):
+            g = _callee_def(mod, e, fn, cls_methods, recv)
+            if g is not None and id(g) not in seen and depth:
+                out.extend(returned_leaves(mod, g, cls_methods, depth - 1, seen))
+                return
+        out.append((e, fn))
+
+    for r in own_nodes(fn):
+        if isinstance(r, ast.Return) and r.value is not None:
+            leaf(r.value, 4, frozenset())
+    return out
+
+
+def class_of_forms(e: ast.expr) -> set[str]:
+    """normalised texts that denote (the name of) the class of the value of e"""
+    t = norm(e)
+    base = {"%s.__class__" % t, "type(%s)" % t}
+    return base | {b + "." + a for b in base for a in ("__name__", "__qualname__")}
+
+
+def key_built_from_class_and_value(e: ast.expr) -> Optional[ast.expr]:
+    """e is a string building (f-string, %, .format, join, +) among whose interpolated values there is an expression E together with the class
+    of E: returns E (None otherwise)."""
+    from .h_c17 import str_parts
+
+    parts = str_parts(e)
+    if parts is None:
+        return None
+    vals = [p for p in parts if not isinstance(p, str)]
+    texts = {norm(p) for p in vals}
+    for p in vals:
+        if class_of_forms(p) & texts:
+            return p
+    return None
+
+
+# --------------------------------------------------------------------------- k: the registry of graphs
+
+_TAKES_OUT = {"remove", "discard", "pop", "clear", "difference_update", "intersection_update", "symmetric_difference_update", "popitem", "__delitem__"}
+
+
+def registry_attrs(mod: Module, cls: str, entry: str = "add_graph") -> set[str]:
+    """The attributes of the receiver that make up the store's registry of graphs: what the public `entry` (add_graph) puts its argument into
+    - <receiver>.A.add(graph) / .append / .setdefault / <receiver>.A[..] = graph / <receiver>.A[graph] = .."""
+    meths = mod.methods(cls)
+    if entry not in meths:
+        raise AnalysisError("anchor vanished: %s:%s.%s" % (mod.rel, cls, entry))
+    f = meths[entry]
+    ps = positional_params(f)
+    if len(ps) < 2:
+        raise AnalysisError("%s.%s: expected (receiver, graph)" % (cls, entry))
+    recv, g = ps[0], ps[1]
+    out: set[str] = set()
+    for n in own_nodes(f):
+        if (isinstance(n, ast.Call) and isinstance(n.func, ast.Attribute) and attr_root(n.func.value, recv)
+                and any(isinstance(a, ast.Name) and a.id == g for a in list(n.args) + [k.value for k in n.keywords])):
+            out.add(attr_root(n.func.value, recv))  # type: ignore[arg-type]
+        elif isinstance(n, ast.Assign) and mentions(n, {g}):
+            for t in n.targets:
+                if isinstance(t, ast.Subscript) and attr_root(t.value, recv) and (mentions(t.slice, {g}) or mentions(n.value, {g})):
+                    out.add(attr_root(t.value, recv))  # type: ignore[arg-type]
+    return out
+
+
+def attr_root(e: ast.AST, recv: str) -> Optional[str]:
+    """e is <recv>.A or <recv>.A[..][..]: A"""
+    while isinstance(e, ast.Subscript):
+        e = e.value
+    if isinstance(e, ast.Attribute) and isinstance(e.value, ast.Name) and e.value.id == recv:
+        return e.attr
+    return None
+
+
+def registry_drops(fn: ast.FunctionDef, recv: str, attrs: set[str]) -> list[ast.AST]:
+    """The constructs of fn that take something out of <recv>.A (A in attrs) or of a local alias of it: a call of a removing method, a `del` of an
+    item, `-=` / `&=` / `^=`, a rebinding of the attribute."""
+    al = aliases_of(fn, lambda e: isinstance(e, ast.Attribute) and isinstance(e.value, ast.Name) and e.value.id == recv and e.attr in attrs)
+
+    def is_reg(e: ast.AST) -> bool:
+        while isinstance(e, ast.Subscript):
+            e = e.value
+        return (isinstance(e, ast.Attribute) and isinstance(e.value, ast.Name) and e.value.id == recv and e.attr in attrs) or (isinstance(e, ast.Name) and e.id in al)
+
+    out: list[ast.AST] = []
+    for n in own_nodes(fn, include_nested=True):
+        if isinstance(n, ast.Call) and isinstance(n.func, ast.Attribute) and n.func.attr in _TAKES_OUT and is_reg(n.func.value):
+            out.append(n)
+        elif isinstance(n, ast.Delete) and any(isinstance(t, ast.Subscript) and is_reg(t.value) for t in n.targets):
+            out.append(n)
+        elif isinstance(n, ast.AugAssign) and isinstance(n.op, (ast.Sub, ast.BitAnd, ast.BitXor)) and is_reg(n.target):
+            out.append(n)
+        elif isinstance(n, ast.Assign) and any(isinstance(t, ast.Attribute) and is_reg(t) for t in n.targets):
+            out.append(n)
+    return out
+
+
+def reached_only_where(fn: ast.FunctionDef, nodes: list[ast.AST], is_atom: Callable[[ast.expr], bool], want: bool) -> dict[int, bool]:
+    """id(node) -> the simple statement that contains the node is reached only on paths on which the atomic condition recognised by `is_atom`
+    has been found to be `want` (path-sensitive: GuardWalk).  A node inside no visited statement (a nested def, a test) is absent."""
+    defs = _flat_assignments(fn)
+    rebound = bound_names(fn.body)
+    KEY = ("atom",)
+
+    def atom_of(e: ast.expr) -> Optional[tuple]:
+        if is_atom(e):
+            return KEY, True, {n.id for n in ast.walk(e) if isinstance(n, ast.Name)}
+        return None
+
+    def alias_of(name: str) -> Optional[ast.expr]:
+        ds = defs.get(name)
+        if ds and len(ds) == 1 and (is_atom(ds[0]) or isinstance(ds[0], (ast.Compare, ast.BoolOp, ast.UnaryOp))) and not any(
+                isinstance(n, ast.Name) and n.id in rebound for n in ast.walk(ds[0])) and not any(isinstance(n, ast.Call) for n in ast.walk(ds[0])):
+            return ds[0]
+        return None
+
+    out: dict[int, bool] = {}
+
+    def visit(s: ast.stmt, vals: set) -> None:
+        inside = {id(x) for x in ast.walk(s)}
+        for n in nodes:
+            if id(n) in inside:
+                ok = bool(vals) and all((KEY, want) in v for v in vals)
+                out[id(n)] = out.get(id(n), True) and ok
+
+    GuardWalk(atom_of, visit, alias_of).block(fn.body, {frozenset()})
+    return out
+
+
+# --------------------------------------------------------------------------- o: callables, and the arm taken because a graph is empty
+
+_PARTIAL = {"partial", "partialmethod"}
+
+
+def callables_of(mod: Module, e: ast.expr, fn: ast.AST, _depth: int = 3, _names: frozenset = frozenset()) -> Optional[list[ast.AST]]:
+    """The functions (defs of this module) / lambdas the expression `e`, used as a callee inside fn, can evaluate to: a name of a def visible
+    from fn, a local of fn (or of a def enclosing it) every plain definition of which is such an expression, functools.partial(f, ...), a
+    lambda, a conditional expression.  None when some alternative is not understood."""
+    if isinstance(e, ast.Lambda):
+        return [e]
+    if isinstance(e, ast.IfExp):
+        a, b = callables_of(mod, e.body, fn, _depth, _names), callables_of(mod, e.orelse, fn, _depth, _names)
+        return None if a is None or b is None else a + b
+    if isinstance(e, ast.Call):
+        f = e.func
+        if ((isinstance(f, ast.Name) and f.id in _PARTIAL) or (isinstance(f, ast.Attribute) and f.attr in _PARTIAL and isinstance(f.value, ast.Name))) and e.args:
+            return callables_of(mod, e.args[0], fn, _depth, _names)
+        return None
+    if not isinstance(e, ast.Name) or _depth <= 0 or e.id in _names:
+        return None
+    scope = mod.scope.get(id(fn), "")
+    parts = scope.split(".") if scope else []
+    for k in range(len(parts), -1, -1):
+        owner = mod.defs.get(".".join(parts[:k])) if k else None
+        if k and isinstance(owner, ast.ClassDef):
+            continue  # class attributes are not visible by bare name
+        d = mod.defs.get(".".join(parts[:k] + [e.id]))
+        if isinstance(d, (ast.FunctionDef, ast.AsyncFunctionDef)):
+            return [d]
+        if k and isinstance(owner, (ast.FunctionDef, ast.AsyncFunctionDef)):
+            if e.id in positional_params(owner) or e.id in {a.arg for a in owner.args.kwonlyargs}:
+                return None
+            if e.id in bound_names(owner.body):
+                ds = _flat_assignments(owner).get(e.id)
+                if not ds:
+                    return None
+                out: list[ast.AST] = []
+                for v in ds:
+                    r = callables_of(mod, v, owner, _depth - 1, _names | {e.id})
+                    if r is None:
+                        return None
+                    out += r
+                return out
+    return None
+
+
+def under_emptiness(t: ast.expr, site: ast.AST) -> Optional[bool]:
+    """What the test t comes out as when the graph tested at `site` (a truth-tested expression, or a len(..) call) is empty; None if that
+    does not decide it."""
+    if t is site:
+        return False
+    if isinstance(t, ast.UnaryOp) and isinstance(t.op, ast.Not):
+        v = under_emptiness(t.operand, site)
+        return None if v is None else (not v)
+    if isinstance(t, ast.BoolOp):
+        vals = [under_emptiness(v, site) for v in t.values]
+        if isinstance(t.op, ast.And):
+            return False if any(v is False for v in vals) else (True if all(v is True for v in vals) else None)
+        return True if any(v is True for v in vals) else (False if all(v is False for v in vals) else None)
+    if isinstance(t, ast.Compare) and len(t.ops) == 1 and (t.left is site or t.comparators[0] is site):
+        lc = _len_compare(t)
+        if lc is not None:
+            _, op, k = lc
+            return {ast.Eq: 0 == k, ast.NotEq: 0 != k, ast.Lt: 0 < k, ast.LtE: 0 <= k, ast.Gt: 0 > k, ast.GtE: 0 >= k}.get(op)
+    return None
+
+
+def _block_of(mod: Module, st: ast.AST) -> Optional[tuple[ast.AST, list, int]]:
+    p = mod.parent.get(id(st))
+    if p is None:
+        return None
+    for field in ("body", "orelse", "finalbody"):
+        blk = getattr(p, field, None)
+        if isinstance(blk, list):
+            for i, x in enumerate(blk):
+                if x is st:
+                    return p, blk, i
+    return None
+
+
+def arm_reached_only_when_false(mod: Module, ifn: ast.If) -> Optional[list[ast.stmt]]:
+    """The statements that run exactly when the test of `ifn` came out false: its else arm; or, when its body always ends in `continue` /
+    `return` and there is no else arm, what follows it in its block - provided nothing else runs after that block before the loop goes round /
+    the function ends (every enclosing statement up to the loop / the function is the last of its block).  None when there is no such
+    arm or it is not understood."""
+    if ifn.orelse:
+        return list(ifn.orelse)
+    last = ifn.body[-1] if ifn.body else None
+    if isinstance(last, ast.Continue):
+        stops: tuple = (ast.For, ast.AsyncFor, ast.While)
+    elif isinstance(last, ast.Return):
+        stops = (ast.FunctionDef, ast.AsyncFunctionDef)
+    else:
+        return None
+    here = _block_of(mod, ifn)
+    if here is None:
+        return None
+    rest = list(here[1][here[2] + 1:])
+    cur: ast.AST = ifn
+    while True:
+        b = _block_of(mod, cur)
+        if b is None:
+            return None
+        p, blk, i = b
+        if cur is not ifn and i != len(blk) - 1:
+            return None  # something else runs after the enclosing statement, on the false path only (the true path has jumped)
+        if isinstance(p, stops):
+            return rest if blk is p.body else None
+        if not isinstance(p, (ast.If, ast.With, ast.AsyncWith)):
+            return None  # a loop / try / def boundary that the jump crosses in a way not modelled
+        cur = p
+
+
+# --------------------------------------------------------------------------- e: copies of the triple
+
+def triple_copies(scope: ast.AST, triple_names: set[str], comps: set[str]) -> set[str]:
+    """Local names every plain definition of which (inside `scope`) is the triple again: a name of `triple_names`, tuple()/list() of one, or a
+    display (a, b, c) of three elements each of which is a component name or <triple>[i]."""
+    defs = _flat_assignments(scope)
+    out = set(triple_names)
+
+    def is_triple(v: ast.expr) -> bool:
+        if isinstance(v, ast.Name):
+            return v.id in out
+        if isinstance(v, ast.Call) and isinstance(v.func, ast.Name) and v.func.id in ("tuple", "list") and len(v.args) == 1 and not v.keywords:
+            return is_triple(v.args[0])
+        if isinstance(v, (ast.Tuple, ast.List)) and len(v.elts) == 3:
+            return all((isinstance(x, ast.Name) and x.id in comps) or (isinstance(x, ast.Subscript) and isinstance(x.value, ast.Name) and x.value.id in out) for x in v.elts)
+        return False
+
+    changed = True
+    while changed:
+        changed = False
+        for name, vs in defs.items():
+            if name not in out and name not in comps and vs and all(is_triple(v) for v in vs):
+                out.add(name)
+                changed = True
+    return out
